@@ -42,15 +42,16 @@ VARIABLES mode,    \* cleanup_mode of the configuration (fixed in a behaviour)
           fed,     \* Feed steps of the current publication (0: its muxer has written nothing yet)
           timers,  \* pending cleanup timers, oldest first: [g |-> Group identity at arming, age |-> steps since]
           fs,      \* [dir, pl, plEp, eps]
+          nbr,     \* the directory, playlist and listed segments of ANOTHER stream name that is live all the time are intact
           act
 
-vars == <<mode, grp, ngrp, pub, sub, ep, fed, timers, fs, act>>
-View == <<mode, grp, ngrp, pub, sub, ep, fed, timers, fs>>
+vars == <<mode, grp, ngrp, pub, sub, ep, fed, timers, fs, nbr, act>>
+View == <<mode, grp, ngrp, pub, sub, ep, fed, timers, fs, nbr>>
 
 NoDir == [dir |-> FALSE, pl |-> "none", plEp |-> 0, eps |-> {}]
 
 Init == /\ mode \in Modes /\ grp = 0 /\ ngrp = 0 /\ pub = FALSE /\ sub = FALSE /\ ep = 0 /\ fed = 0
-        /\ timers = <<>> /\ fs = NoDir /\ act = [name |-> "init"]
+        /\ timers = <<>> /\ fs = NoDir /\ nbr = TRUE /\ act = [name |-> "init"]
 
 Cleans == mode \in {1, 2}
 Aged(ts) == [i \in 1..Len(ts) |-> [ts[i] EXCEPT !.age = @ + 1]]
@@ -107,7 +108,8 @@ SubLeave  == SubLeaveOk  /\ SubLeaveFx  /\ act' = [name |-> "SubLeave"]
 Tick      == TickOk      /\ TickFx      /\ act' = [name |-> "Tick"]
 TimerFire == TimerFireOk /\ TimerFireFx /\ act' = [name |-> "TimerFire"]
 
-Next == (PubStart \/ Feed \/ PubStop \/ SubJoin \/ SubLeave \/ Tick \/ TimerFire) /\ mode' = mode
+\* no step of this stream name - the RemoveAll of an expiring timer least of all - touches what belongs to another name
+Next == (PubStart \/ Feed \/ PubStop \/ SubJoin \/ SubLeave \/ Tick \/ TimerFire) /\ mode' = mode /\ nbr' = nbr
 Spec == Init /\ [][Next]_vars
 
 \* ---- the clauses of C10 at this level
@@ -116,7 +118,7 @@ TypeOK ==
   /\ ep \in 0..MaxEp /\ fed \in 0..MaxFeed /\ Len(timers) <= MaxPending
   /\ \A i \in 1..Len(timers) : timers[i].g \in 1..MaxGrp /\ timers[i].age \in 0..MaxAge
   /\ fs.dir \in BOOLEAN /\ fs.pl \in {"none", "live", "ended"} /\ fs.plEp \in 0..MaxEp /\ fs.eps \subseteq 1..MaxEp
-  /\ (pub => grp # 0)
+  /\ (pub => grp # 0) /\ nbr \in BOOLEAN
 
 \* what an observer of the directory may rely on, as a predicate of (muxer alive, has written, epoch, directory)
 LiveSparedOf(alive, written, e, f) ==
@@ -125,7 +127,7 @@ LiveSparedOf(alive, written, e, f) ==
 \* every listed segment exists
 ListedOf(f) == f.pl # "none" => (f.dir /\ f.plEp \in f.eps)
 
-LiveSpared == LiveSparedOf(pub, fed > 0, ep, fs)
+LiveSpared == LiveSparedOf(pub, fed > 0, ep, fs) /\ nbr
 Listed == ListedOf(fs)
 \* after the last timer has expired with no live muxer the directory is gone (modes 1 and 2) ...
 Cleaned == (Cleans /\ ~pub /\ timers = <<>>) => fs = NoDir
